@@ -4,7 +4,7 @@ import json
 CLAIMS = {
  'C18': dict(
   text="Deductive proof, for all inputs: the four JsonUtil functions are symbolically executed from /repo's current source against sidecar contracts whose postconditions are the statement's spec functions (json round trip rt, JSON equality jeq, hashable form hsh); the code-independent spec lemmas (jeq is an equivalence, 1==1.0, bool!=number, list==tuple, key lemma hsh-equal <=> jeq, rt yields sanitized values) are proved by structural induction; every obligation is discharged by z3 (cvc5 for z3's unknowns).",
-  note="Assumes: the PyV value model of spec/json_spec.py (dicts up to insertion order, -0.0==0.0, subclass instances do not override __str__/__int__/__float__/__eq__), Python dict/tuple ==/hash, one assumed axiom PIGEONHOLE (finite pigeonhole on sorted association lists, used only in is_equal's dict branch), termination not verified.",
+  note="Assumes: the PyV value model of spec/json_spec.py (dicts up to insertion order, -0.0==0.0, subclass instances do not override __str__/__int__/__float__/__eq__), Python dict/tuple ==/hash, no assumed axiom (the finite pigeonhole used in is_equal's dict branch is proved by induction as lemmas pigeonhole_*), termination not verified.",
   ref="DESIGN.md 4.1, 5 C18"),
  'C15': dict(
   text="Deductive proof over all paths of build_versioned, clean and Cache.read_immutable (read from /repo on every run): every exceptional exit of clean and read_immutable has an empty effect trace, no callback and an unchanged ghost file system; in build_versioned the first mutating primitive (mkdtemp of the backup directory) carries a guard obligation that every validation fact holds (name is a str, func callable, versions a JSON dict, cache path not a directory, stored build name equal) and that nothing happened before; every exceptional exit either has no effect or starts with that mkdtemp.",
@@ -48,7 +48,7 @@ CLAIMS = {
   ref="DESIGN.md 5 C14"),
  'C04': dict(
   text="Deductive proof that the executor's queries equal the statement's virtual view, written from the statement (VFile: not the cache file; a path passed to build_file in this build is a file iff its function has returned and the file exists; otherwise iff it is not an old output and is a regular file; VDir: a real directory not virtually gone; the replay overlay takes precedence): _is_file_no_read, is_file, is_dir, exists, _assert_exists, _assert_is_dir, read (incl. which OSError subclass), get_size, list_dir (every listed name exists in the view) and _list_dir_superset are verified against it on all paths; _rebuild_file proves that the target is claimed while its function runs and registered (visible, or failed and invisible) on every exit; query methods pass no overlay.",
-  note="'Virtually gone' is the answer of BuildDirs' directory scan (is_removed_norm_case), a trusted contract; the reservation machine has the bounded stand-in build_dirs_machine; walk/_append_walk are not under contract (not decided); completeness of list_dir (every existing child is listed) is proved only for _list_dir_superset; the cache-only-directory latitude is built into the view.",
+  note="'Virtually gone' is the answer of BuildDirs' directory scan (is_removed_norm_case), a trusted contract with the bounded stand-in dir_scan (14 external changes of a recorded tree); the reservation machine has the bounded stand-in build_dirs_machine; walk/_append_walk are not under contract (not decided); completeness of list_dir (every existing child is listed) is proved only for _list_dir_superset; the cache-only-directory latitude is built into the view.",
   ref="DESIGN.md 5 C04"),
  'C05': dict(
   text="Deductive proof of the effectiveness mechanisms: replay queries never need the real file system for paths that exist only in the overlay (_list_dir_superset; get_size is a listed known finding); listings are sorted (deterministic); reuse does not call the function and records the current comparison result; the replay functions leave the file system untouched and keep the CreatedFiles invariant (overlay evolves as recorded: counts never drop); lookups hit only the old record of the same key.",
@@ -56,10 +56,10 @@ CLAIMS = {
   ref="DESIGN.md 5 C05"),
  'C13': dict(
   text="Deductive proof of the comparison primitives: _file_metadata returns exactly {size: st_size, timeNs: st_mtime_ns} of the file (IsADirectoryError / FileNotFoundError exactly for directories / missing paths); file_comparison_result dispatches METADATA/HASH and rejects other names with ValueError; _file_hash either hashes the file now and memoises (hash, built-flag) or serves a memo entry whose built-flag equals the current one and whose path is still a regular file; read returns that result only for virtual files; _is_build_file_cached is JsonUtil.is_equal(recorded, current-or-None) and implies the output exists; _rebuild_file records the result taken after the function returned; reuse records the current result.",
-  note="SHA-256 is an uninterpreted digest (content -> hash injectivity assumed); the memo invariant 'entry equals the hash of the current content' needs the history of writes and is not decided (design candidate M7).",
+  note="SHA-256 is an uninterpreted digest (content -> hash injectivity assumed); the memo invariant 'entry equals the hash of the current content' needs the history of writes and is not decided (design candidate M7); which bytes _file_hash feeds to the digest and the integer exactness of timeNs are pinned by the comparison_cases replay only (bounded), which decides when the body regresses or leaves the analysable subset.",
   ref="DESIGN.md 5 C13"),
  'C16': dict(
-  text="Proof + bounded: Cache.read_immutable is verified to have no effect on any path and to build a Cache whose maps are what _operations_from_json registered; Cache.write is verified to perform exactly one effect (opening the file it was given for writing) and _build proves it is called only after the root function returned, after the created directories were recorded and with the previous cache file moved aside; the record serialisation round trip (write o read_immutable over record forests, versions incl. falsy values, unicode names, big ints) is a bounded stand-in (cache_forest), not a proof.",
+  text="Proof + bounded: Cache.read_immutable is verified to have no effect on any path and to build a Cache whose maps are what _operations_from_json registered; Cache.write is verified to perform exactly one effect (opening the file it was given for writing) and _build proves it is called only after the root function returned, after the created directories were recorded and with the previous cache file moved aside, and that the text handed to the text-mode stream is ASCII (stated precondition of the assumed file.write model: json.dumps with ensure_ascii on); the record serialisation round trip (write o read_immutable over record forests, versions incl. falsy values, unicode names, big ints) is a bounded stand-in (cache_forest), not a proof.",
   note="_operation_to_json/_operations_from_json/json/gzip are the trusted file layer; 'if writing fails and there was no cache file, none is left' is NOT established (design defect D5, no obligation yet).",
   ref="DESIGN.md 5 C16"),
  'C07': dict(
@@ -67,8 +67,8 @@ CLAIMS = {
   note="Assumes Python dict lookup = ==/hash on tuples of atoms (axiom DICT_KEYS), os.path.abspath/fsdecode; the C18 assumptions.",
   ref="DESIGN.md 5 C07"),
  'C01': dict(
-  text="Deductive proof of the necessary conditions that carry cache transparency, function by function: a lookup hit is the old record of the same key, not raised, same function name, JSON-equal arguments, unchanged versions in the whole subtree, intact output; a True replay answer implies not setup-failed, path/key unclaimed, and leaves the file system untouched; the CreatedFiles overlay satisfies its representation invariant after every operation (directories = those with a live file below); reuse does not call the function, closes the record, re-reserves every recorded output (count NBF of non-raised build-file records in the subtree, also below raised ones) or releases everything on failure; commit removes only old outputs that are not virtually files and old/error directories.",
-  note="The end-to-end statement (incremental build equals from-scratch build for every program and history) is a simulation argument over arbitrary user callbacks: composition is informal and NOT machine-checked; Cache.use_cached_operation and BuildDirs are trusted contracts with bounded stand-ins.",
+  text="Deductive proof of the necessary conditions that carry cache transparency, function by function: a lookup hit is the old record of the same key, not raised, same function name, JSON-equal arguments, unchanged versions in the whole subtree, intact output; a True replay answer implies not setup-failed, path/key unclaimed, and leaves the file system untouched; the CreatedFiles overlay satisfies its representation invariant after every operation (directories = those with a live file below); reuse does not call the function, closes the record, re-reserves every recorded output (count NBF of non-raised build-file records in the subtree, also below raised ones) or releases everything on failure; commit removes only old outputs that are not virtually files and old/error directories; a recorded query is accepted by _is_simple_operation_cached only if executor.exec was called in that call and its outcome (ghost log of exec's contract) has the recorded exception class and a JSON-equal value.",
+  note="The end-to-end statement (incremental build equals from-scratch build for every program and history) is a simulation argument over arbitrary user callbacks: composition is informal and NOT machine-checked (a differential replay template, 360 two-build histories against from-scratch builds, is run only to confirm a failed obligation); Cache.use_cached_operation and BuildDirs are trusted contracts with bounded stand-ins.",
   ref="DESIGN.md 5 C01"),
 }
 NA_REASON = {
